@@ -3,6 +3,8 @@ import inspect
 import numpy as np
 from scipy import ndimage
 
+from ..fit import FP_DEFAULT
+
 #: Valid keyword arguments for feature types
 VALID_FEATURE_TYPES = ["all", "binary", "continuous"]
 
@@ -52,7 +54,8 @@ class IndentationFeatures(object):
 
     @property
     def datax_apr(self):
-        xaxis = self.dataset.fit_properties["x_axis"]
+        xaxis = self.dataset.fit_properties.get("x_axis",
+                                                FP_DEFAULT["x_axis"])
         seg = self.dataset["segment"] == 0
         x = self.dataset[xaxis][seg].copy()
         # Make sure everything is ok
@@ -61,7 +64,9 @@ class IndentationFeatures(object):
 
     @property
     def datay_apr(self):
-        yaxis = self.dataset.fit_properties["y_axis"]
+        # (the axes are only part of the fit properties after a fit)
+        yaxis = self.dataset.fit_properties.get("y_axis",
+                                                FP_DEFAULT["y_axis"])
         seg = self.dataset["segment"] == 0
         y = self.dataset[yaxis][seg].copy()
         return y
